@@ -33,7 +33,7 @@ ASSUMPTIONS = ["SQLite backend, busy timeout 0 under the cooperative scheduler",
 MIN_OBS = {"same_base_version_races": {"quick": 300, "thorough": 5000}, "conflicts_raised": {"quick": 300, "thorough": 5000}, "rolled_back_after_successful_store": {"quick": 100, "thorough": 1500}}
 TIMEOUT = {"quick": 800, "thorough": 3400}
 
-MODES = ["plain", "plain_phase", "txn", "txn_phase", "plain_task", "txn_task", "txn_fault"]
+MODES = ["plain", "plain_phase", "txn", "txn_phase", "plain_task", "txn_task", "txn_fault", "txn_commit_fault"]
 
 
 class _Fault(Exception):
@@ -51,7 +51,7 @@ def gen_cases(tier: str, seed: int) -> list[dict]:
             for retry in (False, True):
                 for c in range(chunks):
                     cases.append({"kind": "api2", "modes": [mode_a, mode_b], "retry": retry, "chunk": c, "chunks": chunks, "seed": seed, "sample": 60 if tier == "quick" else 1500})
-    nt_modes = ["plain", "txn", "txn_phase", "txn_fault"]
+    nt_modes = ["plain", "txn", "txn_phase", "txn_fault", "txn_commit_fault"]
     for mode_a in nt_modes:
         for mode_b in nt_modes:
             if tier == "quick" and (nt_modes.index(mode_a) + nt_modes.index(mode_b)) % 2:
@@ -101,6 +101,25 @@ def _writer(w, sid: str, i: int, mode: str, retry: bool, hist: list, tag_prefix:
         stage.outputs[tag] = f"{tag}@0"
         rec = {"writer": i, "attempt": 0, "mode": mode, "read_version": v0, "seq_before": w.max_seq()}
         try:
+            if mode == "txn_commit_fault":
+                # the failure hits the COMMIT itself (SQLITE_BUSY while taking the exclusive lock)
+                import sqlite3
+
+                conn = store._get_connection()
+
+                def failing_commit():
+                    del conn.commit
+                    raise sqlite3.OperationalError("database is locked")
+
+                conn.commit = failing_commit
+                try:
+                    with store.transaction(w.queue) as txn:
+                        txn.store_stage(stage)
+                    raise AssertionError("injected commit failure did not fire")
+                except sqlite3.OperationalError:
+                    raise _Fault()
+                finally:
+                    conn.__dict__.pop("commit", None)
             with store.transaction(w.queue) as txn:
                 txn.store_stage(stage)
                 raise _Fault()
@@ -128,7 +147,7 @@ def _writer(w, sid: str, i: int, mode: str, retry: bool, hist: list, tag_prefix:
         rec2["in_txn_after"] = bool(store._get_connection().in_transaction)
         hist.append(rec2)
 
-    if mode == "txn_fault":
+    if mode in ("txn_fault", "txn_commit_fault"):
         return fault_body
 
     def body() -> None:
